@@ -156,3 +156,61 @@ def r5_two_phases(p: int, dup: int) -> bool:
         return False
     return (out.count('href="/first"') == 2 and out.count('src="/first"') == 1 and out.count('title="one"') == 3
             and '/second' not in out and '[foo]:' not in out and '[FOO]:' not in out)
+
+
+# ------------------------------------------------------------------------------------ R3
+
+R3_ALPH = 'a[]\\<>"\'() \n'
+R3_SKELETONS = {
+    'D': ['[a]: {}\n', '[a]: {} "t"\n', '[a]: {}\n"t"\n', '[a]:\n{} (t)\n'],
+    'T': ['[a]: /u {}\n', '[a]: /u\n{}\n', '[a]: <u v> {} \n'],
+    'L': ['[{}]: /u "t"\n', ' [{}]:/u\n'],
+}
+
+
+def no_blank_line(s):
+    """a paragraph has no blank line inside (Footnote.read never hands one to the scanner)"""
+    for line in s[:-1].split('\n'):
+        if line.strip(' \t') == '':
+            return False
+    return True
+
+
+def side_linkdef_reference():
+    import os
+    from vfy.ref import linkdef
+    n, bad = linkdef.validate(os.path.join(os.path.dirname(linkdef.__file__), 'commonmark-0.30.json'))
+    return (n >= 15 and not bad), 'link definition reference agrees with %d/%d applicable spec examples of section 4.7 %s' % (n - len(bad), n, bad[:2] if bad else '')
+
+
+SIDE_CONDITIONS = [side_linkdef_reference]
+
+
+def excl_paren_title(s):
+    """recorded/fixed finding helper (none at present)"""
+    return False
+
+
+@lemma('R3.definition-scanner', 'C07', quick=[{'hole': h, 'sk': i, 'k': k} for h in 'DTL' for i in range(len(R3_SKELETONS[h])) for k in (1, 2)],
+       thorough=[{'hole': h, 'sk': i, 'k': k} for h in 'DTL' for i in range(len(R3_SKELETONS[h])) for k in (1, 2, 3)], timeout=900, per_path=90,
+       covers=['block_token.py:Footnote.match_reference', 'block_token.py:Footnote.match_link_label', 'block_token.py:Footnote.match_link_dest',
+               'block_token.py:Footnote.match_link_title', 'core_tokens.py:shift_whitespace'],
+       note="skeleton '[L]: D T' with ONE of label / destination / title symbolic (k characters over a 12-character alphabet of brackets, quotes, parentheses, backslash, space, newline): "
+            'whenever the reference scanner (spec 4.7) finds a definition, Footnote.match_reference finds the same label, destination, title and end; '
+            'strings the reference rejects are not constrained (grammar conformance is C02/C03 territory)')
+def r3_scanner(c1: int, c2: int, c3: int) -> bool:
+    """
+    pre: all_in(R3_ALPH, P('k'), c1, c2, c3)
+    pre: no_blank_line(R3_SKELETONS[P('hole')][P('sk')].format(S(P('k'), c1, c2, c3)))
+    post: _
+    """
+    from vfy.ref import linkdef
+    s = R3_SKELETONS[P('hole')][P('sk')].format(S(P('k'), c1, c2, c3))
+    ref = linkdef.parse_definition(s)
+    if ref is None:
+        return True
+    got = bt.Footnote.match_reference(s, 0)
+    if got is None:
+        return False
+    end, (label, dest, title, dest_type, title_delim) = got
+    return (label, dest, title, end) == ref
